@@ -114,6 +114,16 @@ def run(ctx):
             c = [r for r in h.results if r['kind'] == 'cex']; np += sum(h.kinds.values())
             for r in c: cexs.append(('encode', fs, r))
         ctx.obligations['[%s] encode == reference encoder, every kind (%d paths)' % (fs, np)] = 'sat' if any(x[1] == fs and x[0] == 'encode' for x in cexs) else 'unsat'
+        # (e) decode(encode(v)) == v under this configuration (Decode exists with std or decode; cfg-dependent decode paths)
+        # quick: the no_std configuration only (the other sets share the default configuration's `std` paths); thorough: every non-default set with Decode
+        if fs != 'default' and ('decode' in ' '.join(FEATURESETS[fs]) or '--no-default-features' not in FEATURESETS[fs]) and (T or '--no-default-features' in FEATURESETS[fs]):
+            np = 0
+            for k in (2, 3, 4, 5, 6, 7, 0, 1):      # small kinds first; a decoder that misreads its input explodes on the big ones: stop at the first counterexample
+                h = run_harness(ctx, '%s-roundtrip-%s' % (fs, KINDS[k]), c07.body_codec(n=1, vec_cap=1, param_cap=1, slen=1, template=[{'kind': k}], idmode='full' if k >= 2 else 'two-class', do=('roundtrip',)), fs=fs, models=CODEC_MODELS, subst=CODEC_SUBST, timeout=300)
+                c = [r for r in h.results if r['kind'] == 'cex']; np += sum(h.kinds.values())
+                for r in c[:3]: cexs.append(('roundtrip', fs, r))
+                if c: break
+            ctx.obligations['[%s] decode(encode(v)) == v, every kind (%d paths)' % (fs, np)] = 'sat' if any(x[1] == fs and x[0] == 'roundtrip' for x in cexs) else 'unsat'
         # (b)
         np = 0
         for k in range(8):
@@ -134,7 +144,9 @@ def run(ctx):
         # native confirmation: the replay binary built with that feature set (docs) / default must show the difference
         feats = 'docs' if 'docs' in ' '.join(FEATURESETS[fs]) else ('nostd' if '--no-default-features' in FEATURESETS[fs] else None)
         nat = ctx.get_native(feats)
-        if what == 'typeinfo':
+        if what == 'roundtrip':
+            a = nat.ask({'op': 'layout_battery', 'seed': ctx.seed}); rep = bool(a.get('failed')) or bool(a.get('panic')) or bool(a.get('crashed'))
+        elif what == 'typeinfo':
             a, b = ctx.get_native().ask({'op': 'corpus_bytes_nodocs'}), nat.ask({'op': 'corpus_bytes_nodocs'})
             rep = bool(a.get('sha')) and bool(b.get('sha')) and a.get('sha') != b.get('sha')
             case['native'] = {'default build': a, 'this build': b}
